@@ -153,6 +153,12 @@ inline bool Futex::Awaitable::await_suspend(
   if (success && _on_suspend) {
     _on_suspend({id});
   }
+  if (!success) {
+    // Value not match, node is never linked and id is never shared. Take it
+    // back and release the slot, otherwise it is leaked.
+    box.take_released(id);
+    box.finish_released(id);
+  }
   return success;
 }
 
